@@ -9,27 +9,32 @@ FPR = {"run_thread.function_pointer_call.1": ["thread_fn"], "thread_fn.function_
 
 def spec(tier):
     units, jobs = {}, []
-    # Programs containing a MANAGED thread did not fit: "M" alone exhausts 12 GB in the solver after 4 min of symbolic execution (the
-    # lazy-join list + recursion through pthread_join); MM, MJ, Lm, ... time out.  Only joinable-thread programs are run; the managed-thread
-    # clauses of C20 are NOT decided.
-    progs = ["J", "JJ"] if tier == "quick" else ["J", "JJ", "JJJ"]
-    for p in progs:
-        u = "t_" + p
-        units[u] = dict(harness=["C20/h_threads.c"], sources=SRC, stubs=STUBS, defines={"PROG": '"%s"' % p, "NEXIT": 2}, fp_restrict=FPR,
+    # (program, thread names, pthread_create may fail)
+    progs = [("J", 0, 0), ("JJ", 0, 0), ("M", 0, 0), ("MJ", 0, 0), ("Lm", 0, 0), ("JJ", 1, 1), ("M", 1, 1)]
+    if tier != "quick":
+        progs += [("MM", 0, 0), ("MJ", 1, 1), ("JJJ", 0, 0), ("MMM", 0, 0), ("LmJ", 0, 0), ("MLm", 0, 0), ("MM", 1, 1), ("Lm", 1, 1), ("JJJ", 1, 1)]
+    for p, names, failc in progs:
+        u = "t_" + p + ("_nf" if names else "")
+        managed = ("M" in p or "L" in p)
+        units[u] = dict(harness=["C20/h_threads.c"], sources=SRC, stubs=STUBS, fp_restrict=FPR,
+                        defines={"PROG": '"%s"' % p, "NEXIT": 2, "MAXDEPTH": 1 if (managed or names) else 2, "NAMES": names, "FAILC": failc},
                         pre_include=["stubs/plain_atomics.h"], native=False, extra_inc=[], cflags=["-I/repo/source/posix"])
         t = len(p)
-        # the global bound also bounds RECURSION (run_thread -> thread_fn -> ... -> pthread_join -> run_thread): nesting depth <= #threads;
-        # every loop gets its own bound
+        # the global bound also bounds RECURSION (run_thread -> thread_fn -> ... -> pthread_join -> run_thread and the cpu-pinning retry in
+        # aws_thread_launch); every loop gets its own bound
         jobs.append(dict(unit=u, entry="h_threads", unwind=t + 1,
                          unwindset={"aws_thread_join_and_free_wrapper_list": 3, "thread_fn": 4, "aws_thread_join_all_managed": t + 3, "schedule_point": t + 2,
-                                    "h_threads": 3 * t + 3, "aws_condition_variable_wait_pred": t + 2, "aws_mem_release": 3 * t + 2, "user_fn": 4, "at_exit_cb": 4}, timeout=300 if tier == "quick" else 2400,
-                         bounds="program %s (M managed, J joinable, L managed thread that launches the next managed thread m); 2 at-exit registrations per thread; schedule symbolic" % p,
-                         what="each function runs once with its argument; at-exit callbacks once, on that thread, reverse order, before join returns; join-all joins every managed thread exactly once, count 0, no deadlock, nothing leaked"))
+                                    "h_threads": max(3 * t + 3, 9), "aws_condition_variable_wait_pred": t + 2, "aws_mem_release": 3 * t + 2, "user_fn": 4, "at_exit_cb": 4,
+                                    "aws_string_destroy": 9}, timeout=600 if tier == "quick" else 3000,
+                         bounds="program %s (M managed, J joinable, L managed thread that launches the next managed thread m); 2 at-exit registrations per thread; schedule symbolic%s" %
+                                (p, "; threads are named and every pthread_create may fail (solver's choice)" if names else ""),
+                         what="each function runs once with its argument; at-exit callbacks once, on that thread, reverse order, before join returns; join-all joins every managed thread exactly once, count 0, no deadlock, nothing leaked"
+                              + ("; a failed launch reports the error, leaves the count unchanged and releases wrapper and name" if failc else "")))
     meta = dict(functions_encoded=["source/posix/thread.c (launch, thread_fn, join, at_exit, join_and_free_wrapper_list)", "source/thread_shared.c (all)"],
-                bounds="up to %d threads" % max(len(p) for p in progs),
+                bounds="up to %d threads" % max(len(p[0]) for p in progs),
                 stubs=["pthread_create/join/self/attr_*: sequentialising scheduler in the harness (records threads, runs the real thread_fn at schedule points)",
                        "aws_mutex_*, aws_condition_variable_* (wait may return when the predicate holds; asserts progress otherwise), aws_sys_clock_get_ticks", "base.c (no logger)", "allocator: typed static pools for thread_wrapper / thread_atexit_callback in the harness (release asserted exactly once, ghost leak check)"],
                 out=["interleavings that need two threads suspended mid-way at the same time (not stack-like), e.g. two threads both between unlock and join inside aws_thread_pending_join_add",
-                     "real pthread failure modes (create/attr failures), cpu affinity / naming paths, the timed join-all path"],
+                     "pthread_attr_* failures, cpu affinity (and its retry path), the timed join-all path", "a managed thread suspended BETWEEN pthread_create and the code after it while the main flow continues (needs two flows suspended mid-way)"],
                 assumptions=["state shared between threads is accessed only under the management mutex or by the owning thread (the mutex stub asserts lock discipline)"])
-    return dict(units=units, jobs=jobs, meta=meta)
+    return dict(units=units, jobs=jobs, meta=meta, max_parallel=6 if tier == "quick" else 4)
